@@ -20,7 +20,7 @@ SPEC = {
         "harness/cmd/ckpt (drives the real checkpoint.NewFileCreator / NewRestorer on real badger and pathbadger databases in temp dirs; independent snappy/CBOR/node decoder for the chunk files)",
         "harness/cmd/gen ckptconsts (go/ast reader: maxProofDepth and its comparison, the splitTasks iteration bound, the sequential loop comparison, proof version, node prefixes, width of the length fields)",
         "vm_compute evaluation of Verif.Ckpt.Stack.run_both on the recorded (tree, chunk size, threads) cases: per-chunk key lists in proof order, both chunkers, threads 0..32; for threads > 0 and bounded work both model layers are evaluated (the count abstraction of Ckpt/Model.v and the port of the subtree{path,pending} stack machine with the proof builder's included set, Ckpt/Stack.v) and must agree with the real chunker and with each other; trees above 60 keys are rebuilt from the shape dumped from the real database (whole-tree proof) instead of by the model's insert",
-        "stream restorer: generated call schedules (StartRestore with genuine/forged metadata, AbortRestore, RestoreChunk with genuine / bit-flipped / foreign files, duplicates, out-of-range slots, Finalize with wrong and right root) on the real restorer; the answer to every call against Verif.Ckpt.RestorerCorr.run_restorer (the model rstep instantiated with symbolic files)",
+        "stream restorer: generated call schedules (StartRestore with genuine/forged metadata, AbortRestore, RestoreChunk with genuine / bit-flipped / foreign files and files that are no snappy stream, break the snappy framing part-way (with more bytes behind), are no CBOR or no proof -- each also as the file a forged manifest names (matching digest: the answer must be the aborting proof failure, never the retryable ErrChunkCorrupted), duplicates, out-of-range slots, Finalize with wrong and right root) on the real restorer; the answer to every call against Verif.Ckpt.RestorerCorr.run_restorer (the model rstep instantiated with symbolic files)",
         "stream frame: the uncompressed stream of every chunk file of small real checkpoints, byte for byte, against Verif.Ckpt.FrameCorr.run_frame (model chunk -> proof entries -> CBOR stream; the payloads of hash entries are taken from the real stream since the model has no SHA-512/256)",
         "Verif.Mkvs.Trie (trie model; its correspondence is checked by C02/C03)",
         "snappy is abstract (unsnap (snap x) = Some x); the CBOR stream layer and the serialization of proof entries are concrete (Ckpt/Frame.v, round trip proved for the stream layer), the parser from entries back to a proof stays abstract (a function bytes -> option proof with decode (enc c) = Some c as premise of the history theorems), the digest and node hashes (abstract functions, collision disjunct), the node database during a multipart restore (the set of imported key/value pairs); not modelled: goroutine scheduling inside RestoreChunk, badger/pathbadger key layout (exercised by the harness only)",
